@@ -19,7 +19,7 @@ pub fn meta() -> Meta {
     Meta {
         id: "C16",
         level: "exploration",
-        rule: "string-level pack/unpack/reverse-complement model against the real UInt primitives: (a) every string of length k-1 and k for k=5,7,9,11 (thorough: 13, 15) in both widths; (b) for all 30 k and both widths (u64 for k<=31) every string within Hamming distance 2 of the four homopolymers and two mixed backgrounds, at lengths k-1 and k; (c) rolling: for every k a repeat-free sequence of length 4k with an N substituted at every position in turn, runs of N of length 2, k-1, k, k+1, k+2, 2k+1 inside the sequence and at its start, records of exactly k-1, k and k+1 letters and of k letters next to an N (each window is also rebuilt from scratch as a record of exactly k letters), plus the k=5 restart family L+N+R: at every window the rolled (k-mer, middle base, strand flag, middle position, hash) equals the model's canonical form and a fresh SplitKmer/NtHashIterator on that window, both strand modes, with and without the read hash; (d) hash(k-mer) = hash(reverse complement) in two-strand mode. Non-trivial = every evaluated string/window (all carry an expected value); distinct outcomes = distinct expected packed values.".into(),
+        rule: "string-level pack/unpack/reverse-complement model against the real UInt primitives: (a) every string of length k-1 and k for k=5,7,9,11 (thorough: 13, 15) in both widths; (b) for all 30 k and both widths (u64 for k<=31) every string within Hamming distance 2 of the four homopolymers and two mixed backgrounds, at lengths k-1 and k; (c) rolling: for every k a repeat-free sequence of length 4k with an N substituted at every position in turn, runs of N of length 2, k-1, k, k+1, k+2, 2k+1 inside the sequence and at its start, records of exactly k-1, k and k+1 letters and of k letters next to an N (each window is also rebuilt from scratch as a record of exactly k letters), plus the k=5 restart family L+N+R: at every window the rolled (k-mer, middle base, strand flag, middle position, hash) equals the model's canonical form and a fresh SplitKmer/NtHashIterator on that window, both strand modes, with and without the read hash; the same sequence in RNA spelling (U, u), mixed case with U/u, with IUPAC letters at every seventh position and with an N besides: self-consistency only (every window the iterator yields, rebuilt from the same letters as a record of its own, gives the same k-mer, middle base, strand flag and hash); (d) hash(k-mer) = hash(reverse complement) in two-strand mode. Non-trivial = every evaluated string/window (all carry an expected value); distinct outcomes = distinct expected packed values.".into(),
         assumptions: vec!["the independent packing convention A=0,C=1,T=2,G=3, first letter most significant, is the documented one".into()],
         exhaustive_when_uncapped: true,
     }
@@ -174,6 +174,65 @@ fn check_rolling_inner<I: Int>(rep: &mut Report, seq: &[u8], k: usize, rc: bool,
     }
 }
 
+/// "Sliding equals from scratch" in the code's own terms, for letters the model has no reading of (U, u, IUPAC letters in a
+/// sequence): every window the real iterator yields is rebuilt from the SAME letters as a record of its own; k-mer, middle
+/// base, strand flag and read hash must agree, and the direct ntHash of the window too.
+fn check_self_consistency<I: Int>(rep: &mut Report, seq: &[u8], k: usize, rc: bool) {
+    let h = (k - 1) / 2;
+    let describe = || format!("self-consistency bits={} k={k} rc={rc} seq={}", I::WIDTH, String::from_utf8_lossy(seq));
+    let case = || json!({"part":"self","bits":I::WIDTH,"k":k,"rc":rc,"seq":String::from_utf8_lossy(seq)});
+    let r = std::panic::catch_unwind(std::panic::AssertUnwindSafe(|| {
+        let mut got: Vec<(u128, u8, bool, usize, u64)> = Vec::new();
+        if let Some(mut it) = SplitKmer::<I>::new(Cow::Borrowed(seq), seq.len(), None, k, rc, 0, QualFilter::NoFilter, true) {
+            let (km, b, f) = it.get_curr_kmer();
+            got.push((km.as_u128(), b, f, it.get_middle_pos(), it.get_hash()));
+            while let Some((km, b, f)) = it.get_next_kmer() {
+                got.push((km.as_u128(), b, f, it.get_middle_pos(), it.get_hash()));
+                if got.len() > seq.len() + 2 {
+                    break;
+                }
+            }
+        }
+        let mut bad: Option<String> = None;
+        for g in &got {
+            if g.3 < h || g.3 + h >= seq.len() {
+                bad = Some(format!("middle position {} outside the sequence", g.3));
+                break;
+            }
+            let w = &seq[g.3 - h..g.3 + h + 1];
+            match SplitKmer::<I>::new(Cow::Borrowed(w), w.len(), None, k, rc, 0, QualFilter::NoFilter, true) {
+                None => {
+                    bad = Some(format!("window centred at {} ({}) is yielded while sliding but yields nothing as a record of its own", g.3, String::from_utf8_lossy(w)));
+                    break;
+                }
+                Some(fr) => {
+                    let (km, b, f) = fr.get_curr_kmer();
+                    let direct = NtHashIterator::new(w, k, rc).curr_hash();
+                    if (km.as_u128(), b, f) != (g.0, g.1, g.2) {
+                        bad = Some(format!("window centred at {} ({}): k-mer/middle/strand while sliding differ from the from-scratch values", g.3, String::from_utf8_lossy(w)));
+                        break;
+                    }
+                    if fr.get_hash() != g.4 || direct != g.4 {
+                        bad = Some(format!("window centred at {} ({}): hash while sliding {} from scratch {} direct {direct}", g.3, String::from_utf8_lossy(w), g.4, fr.get_hash()));
+                        break;
+                    }
+                }
+            }
+        }
+        (got.len(), bad)
+    }));
+    match r {
+        Ok((n, bad)) => {
+            rep.evaluations += 1 + n as u64;
+            rep.nontrivial += n as u64;
+            if let Some(b) = bad {
+                rep.violate(describe(), b, case());
+            }
+        }
+        Err(e) => rep.violate(describe(), format!("sliding along the sequence panicked: {}", crate::forkrun::panic_message(&e)), case()),
+    }
+}
+
 /// the real iterator may panic on a broken tree: that is a finding about the code, not an engine crash
 fn check_rolling<I: Int>(rep: &mut Report, seq: &[u8], k: usize, rc: bool, reads: bool) {
     let r = std::panic::catch_unwind(std::panic::AssertUnwindSafe(|| check_rolling_inner::<I>(rep, seq, k, rc, reads)));
@@ -209,6 +268,16 @@ pub fn replay(case: &serde_json::Value) -> Result<Option<String>, String> {
                 check_rolling::<u64>(&mut rep, &seq, k, rc, reads)
             } else {
                 check_rolling::<u128>(&mut rep, &seq, k, rc, reads)
+            }
+        }
+        Some("self") => {
+            let seq = case["seq"].as_str().ok_or("seq")?.as_bytes().to_vec();
+            let k = case["k"].as_u64().unwrap() as usize;
+            let rc = case["rc"].as_bool().unwrap();
+            if bits == 64 {
+                check_self_consistency::<u64>(&mut rep, &seq, k, rc)
+            } else {
+                check_self_consistency::<u128>(&mut rep, &seq, k, rc)
             }
         }
         _ => return Err("unknown part".into()),
@@ -307,6 +376,28 @@ pub fn run(ctx: &Ctx, rep: &mut Report) {
             s2[k] = b'N';
             s2[k + 1] = b'N';
             seqs.push(s2);
+            // letters the model does not read (RNA spelling U/u; IUPAC letters inside a sequence): self-consistency only
+            {
+                let rna: Vec<u8> = base.iter().map(|c| if *c == b'T' { b'U' } else { *c }).collect();
+                let rna_lower: Vec<u8> = rna.iter().map(|c| c.to_ascii_lowercase()).collect();
+                let mixed: Vec<u8> = base.iter().enumerate().map(|(i, c)| match (*c, i % 4) { (b'T', 0) => b'U', (b'T', 1) => b'u', (x, 2) => x.to_ascii_lowercase(), (x, _) => x }).collect();
+                let iupac: Vec<u8> = base.iter().enumerate().map(|(i, c)| if i % 7 == 3 { b"RYKMSWBDHV"[(i / 7) % 10] } else { *c }).collect();
+                let mut with_n = mixed.clone();
+                with_n[k + 1] = b'N';
+                for s in [rna, rna_lower, mixed, iupac, with_n] {
+                    idx += 1;
+                    if !ctx.mine(idx) {
+                        continue;
+                    }
+                    for rc in [true, false] {
+                        if k <= 31 {
+                            check_self_consistency::<u64>(rep, &s, k, rc);
+                        }
+                        check_self_consistency::<u128>(rep, &s, k, rc);
+                    }
+                    rep.corner("rolling_sequence_with_letters_outside_ACGTN");
+                }
+            }
             for s in seqs {
                 idx += 1;
                 if !ctx.mine(idx) {
